@@ -16,8 +16,9 @@ MANIFEST = {
              'positions, iloc, loc_to_iloc and `in` IS the label list; accepted iff labels pairwise distinct, else ErrorInitIndex; lookup of the '
              'i-th label is i and conversely) for every label list and probe list; C02_index_dtype_refines; C02_auto_bijection / C02_auto_refines (map-less '
              'auto-integer index; the guard auto_key_ok only excludes a non-integer-typed key equal to a held position, finding C02-auto-float-key); '
-             'C02_go_history / C02_go_labels_laws / C02_go_observe (IndexGO incl. the auto-integer one: after ANY history of append/extend/reader calls, '
-             'unguarded since fixes feb832d/41fcfc5, the state is a bijection holding the initial labels followed by the accepted values, outcome by outcome); C02_hier_refines / C02_hier_bijection (IndexHierarchy.from_labels: dict-tree walk with the shared '
+             'C02_go_history / C02_go_labels_laws / C02_go_observe (IndexGO incl. the auto-integer one: after ANY history of append / all-or-nothing extend / '
+             'reader calls the state is a bijection holding the initial labels followed by the accepted values, outcome by outcome; the guard go_dom only '
+             'excludes an extend carrying a float alias of a held position on a still map-less index, a consequence of finding C02-auto-float-key); C02_hier_refines / C02_hier_bijection (IndexHierarchy.from_labels: dict-tree walk with the shared '
              'observed_last list, levels with relative offsets, leaf_loc_to_iloc: accepted iff one depth >= 2, distinct and tree-ordered; then the '
              'table in the given order with exact lookups); C02_derive_select/drop/roll (label computations of the derivations keep an index an index). '
              'Refuted/C02_*.v: 2 concrete witnesses (one file per unrepaired finding) where the faithful model (= the unchanged code) leaves the property (known/C02.jsonl). '
@@ -32,7 +33,7 @@ MANIFEST = {
              '(True == 1 == 1.0) done inside Coq by SF.IndexBijVal.canon; conversion of date strings to datetime64 done by NumPy in the harness. '
              'Partial: derivations and the from_product/from_tree/from_index_items/level_add routes, datetime indices, IndexHierarchyGO.append are '
              'covered by correspondence with S only (their results are built through the modelled constructors); IndexHierarchyGO.append outside the '
-             'tree-order class (D4) and extend atomicity (D5) belong to C05/C09. NaN labels, from_pandas and tuple components of hierarchical labels '
+             'tree surgery itself belongs to C05/C09 (judged here by S only). NaN labels, from_pandas and tuple components of hierarchical labels '
              'are outside (the last one is listed as a finding).'),
     'technique': 'refinement proofs M = S (flat, grow-only histories, hierarchical construction) + differential correspondence + regenerated constants',
 }
@@ -162,6 +163,24 @@ def generate(repo):
             if len(hs) != 1:
                 raise ValueError('_IndexGOMixin.append: unexpected handlers around the promotion map')
             promote_err = enum_of(raised_class(hs[0].body[0]))
+    # (3a) _IndexGOMixin.extend: is there a validation loop (raising, not appending) before the loop that appends ?
+    ext = find_func(find_class(index_mod, '_IndexGOMixin'), 'extend')
+    loops = [s for s in ext.body if isinstance(s, ast.For)]
+
+    def calls_self_append(node):
+        return any(isinstance(n, ast.Call) and is_self_attr(n.func, 'append') for n in ast.walk(node))
+
+    def raises(node):
+        return any(isinstance(n, ast.Raise) for n in ast.walk(node))
+    if len(loops) == 1 and calls_self_append(loops[0]) and not raises(loops[0]):
+        extend_validates_first = False
+    elif (len(loops) == 2 and raises(loops[0]) and not calls_self_append(loops[0]) and calls_self_append(loops[1])
+          and any(isinstance(n, ast.Call) and is_self_attr(n.func, '__contains__') for n in ast.walk(loops[0]))):
+        if enum_of(raised_class(next(n for n in ast.walk(loops[0]) if isinstance(n, ast.Raise)))) != append_err:
+            raise ValueError('_IndexGOMixin.extend: the validation loop raises another class than append')
+        extend_validates_first = True
+    else:
+        raise ValueError('_IndexGOMixin.extend: unexpected shape')
     # (3b) Index.loc_to_iloc on a map-less index: does it refresh the caches before reading self._positions ?
     l2i = find_func(find_class(index_mod, 'Index'), 'loc_to_iloc')
     l2i_stmts = [s for s in l2i.body if not (isinstance(s, ast.Expr) and isinstance(s.value, ast.Constant))]
@@ -214,6 +233,8 @@ def generate(repo):
             f'Definition gen_go_push_before_map : bool := {b(push_before_map)}.\n'
             '(* error class surfaced when that construction finds a duplicate *)\n'
             f'Definition gen_go_promote_error : string := {lit.s(promote_err)}.\n'
+            '(* IndexGO.extend validates every value (contained / repeated) before it appends any *)\n'
+            f'Definition gen_extend_validates_first : bool := {b(extend_validates_first)}.\n'
             '(* Index.loc_to_iloc refreshes stale caches before reading self._positions on a map-less index *)\n'
             f'Definition gen_loc_to_iloc_recaches : bool := {b(loc_to_iloc_recaches)}.\n'
             '(* Index.loc_to_iloc on a map-less index validates an element key against [0, len) before returning it *)\n'
@@ -563,27 +584,32 @@ def obs_lit_cold(ix, probes):
 
 
 def classify_history(init, ops):
-    '''Simulate the SPECIFICATION on the input: is the index still map-less (auto) at the end, and which labels does it hold.'''
+    '''Simulate the SPECIFICATION on the input: is the index still map-less (auto) at the end, which labels does it hold,
+    and does an extend carry a float alias of a held position while the index is map-less (the class in which the
+    known finding C02-auto-float-key makes extend non-atomic: the alias passes the validation of extend).'''
     kind, arg = init
     labels = list(arg) if kind == 'labels' else list(range(arg))
     auto = kind == 'auto'
+    alias_in_extend = False
 
     def push(v):
         nonlocal auto
-        if any(v == x for x in labels):
-            return False
         if auto and not (is_int_typed(v) and v == len(labels)):
             auto = False
         labels.append(v)
-        return True
     for o in ops:
         if o[0] == 'append':
-            push(o[1])
+            if not any(o[1] == x for x in labels):
+                push(o[1])
         elif o[0] == 'extend':
-            for v in o[1]:
-                if not push(v):
-                    break
-    return auto, labels
+            vs = list(o[1])
+            if auto and any((not is_int_typed(v)) and any(v == x for x in labels) for v in vs):
+                alias_in_extend = True
+            ok = all(not any(v == x for x in labels) for v in vs) and all(not any(vs[i] == vs[j] for j in range(i)) for i in range(len(vs)))
+            if ok:
+                for v in vs:
+                    push(v)
+    return auto, labels, alias_in_extend
 
 
 def go_probes(rng, labels_end, extra):
@@ -598,11 +624,13 @@ def history_case(ctx, init, ops, stratum, touch_pick=None):
     Histories with a float alias of a held position (1.0 on an auto-integer [0,1]: repaired finding C02-autogo-float-append)
     are ordinary inputs: the append must be refused and leave the index unchanged.'''
     touch_pick = touch_pick or [0] * (len(ops) + 1)
-    auto_end, labels_end = classify_history(init, ops)
+    auto_end, labels_end, alias_in_extend = classify_history(init, ops)
     n_end = len(labels_end)
     extra = [n_end, n_end + 1, -1, None, True, 'zz', 0.5] if auto_end else [-1, n_end, 'zz', 0.5, None, (9, 9)]
     probes = [k for k in go_probes(ctx.rng, labels_end, extra) if not auto_end or auto_probe_class(n_end, k) == 'ok']
     tags = {'init': init[0]}
+    if alias_in_extend:
+        tags['finding'] = 'C02-auto-float-key'
     out = []
     ops_w = list(ops) + [('touch',)]
     ix, outs = run_history(ctx, init, ops_w, touch_pick)
@@ -944,11 +972,9 @@ def hier_small_cases(ctx):
                 probes = [list(r) for r in rows[:6]] + [list(rows[0][:-1]), list(rows[0]) + [rows[0][-1]], list(labels[-1]) + ['zz']]
                 for name in names:
                     yield from hier_case(ctx, name, R[name], [tuple(x) for x in labels], probes, 'api:hier-small')
-    # a tuple as a COMPONENT of a hierarchical label (index_level.py:155 notes it is unsupported): index.iloc[i] flattens it
+    # a tuple as a COMPONENT of a hierarchical label: regression input of the repaired finding C02-hier-tuple-component (b79f40c)
     for labels in ([('a', (0, 1)), ('b', (0, 1))], [('c', 'x', 'y'), ('c', 'x', (0, 1))]):
-        for c in hier_case(ctx, 'IH.from_labels', R['IH.from_labels'], labels, [list(labels[0])], 'api:hier-tuple-component'):
-            c.tags['finding'] = 'C02-hier-tuple-component'
-            yield c
+        yield from hier_case(ctx, 'IH.from_labels', R['IH.from_labels'], labels, [list(labels[0]), list(labels[1])], 'api:hier-tuple-component')
     # malformed: inconsistent depth, depth 1, empty
     for labels in ([('a', 1), ('b',)], [('a',), ('b',)], [('a', 1), ('a', 2, 3)], []):
         yield from hier_case(ctx, 'IH.from_labels', R['IH.from_labels'], labels, [['a', 1]], 'api:hier-small')
@@ -971,7 +997,7 @@ def hier_random_cases(ctx):
     import static_frame as sf
     R = hier_routes()
     names = sorted(R)
-    pools_by = [['a', 'b', 'c', 'd'], [1, 2, 3, 'x'], [True, 'y', 5, 0.5], [10, 20, 30]]
+    pools_by = [['a', 'b', 'c', 'd'], [1, 2, 3, 'x'], [True, 'y', 5, (0, 1)], [10, 20, 30]]
     for _ in range(ctx.n(70, 2000)):
         depth = ctx.rng.choice([2, 2, 3, 3, 4])
         pools = pools_by[:depth]
